@@ -457,7 +457,7 @@ impl SymExpr {
                     (SymExpr::Value(x), SymExpr::Value(y)) if x.checked_div(y).is_some() => {
                         SymExpr::Value(x / y)
                     }
-                    // x / b / c => x / (b * c)
+                    // x / b / c => x / (b * c) if b and c are constants.
                     (SymExpr::Div(lhs, c1), c2) => match (&*c1, c2) {
                         (SymExpr::Value(c1), SymExpr::Value(c2)) if *c1 != 0 && c2 != 0 => {
                             match c1.checked_mul(c2) {
@@ -465,7 +465,15 @@ impl SymExpr {
                                 None => SymExpr::Div(lhs, SymExpr::Value(*c1).into()) / SymExpr::Value(c2),
                             }
                         }
-                        (c1, c2) => (*lhs).clone() / (c1.clone() * c2),
+                        // One of the divisors is zero, so the expression has
+                        // no value in either form.
+                        (SymExpr::Value(c1), SymExpr::Value(c2)) => {
+                            (*lhs).clone() / (SymExpr::Value(*c1) * SymExpr::Value(c2))
+                        }
+                        // The product of non-constant divisors can overflow
+                        // even if the nested quotient does not, so these are
+                        // not combined.
+                        (_, c2) => SymExpr::Div(lhs, c1) / c2,
                     },
                     (lhs, rhs) => lhs / rhs,
                 }
@@ -488,8 +496,8 @@ impl SymExpr {
                     // be implemented.
                     (lhs, rhs) if lhs == rhs => SymExpr::Value(1),
 
-                    // x.div_ceil(b).div_ceil(c) => x.div_ceil(b * c) if b > 0
-                    // and c > 0.
+                    // x.div_ceil(b).div_ceil(c) => x.div_ceil(b * c) if b and c
+                    // are constants and c > 0.
                     (SymExpr::DivCeil(lhs, c1), c2) => match (&*c1, c2) {
                         (SymExpr::Value(c1), SymExpr::Value(c2)) if *c1 > 0 && c2 > 0 => {
                             match c1.checked_mul(c2) {
@@ -498,7 +506,17 @@ impl SymExpr {
                                     .div_ceil(&SymExpr::Value(c2)),
                             }
                         }
-                        (c1, c2) => lhs.div_ceil(&(c1.clone() * c2)),
+                        // The identity holds for any `b` if `c > 0`, but not if
+                        // `c < 0`.
+                        (SymExpr::Value(c1), SymExpr::Value(c2))
+                            if c2 > 0 && c1.checked_mul(c2).is_some() =>
+                        {
+                            lhs.div_ceil(&(SymExpr::Value(*c1) * SymExpr::Value(c2)))
+                        }
+                        // The product of non-constant divisors can overflow
+                        // even if the nested quotient does not, so these are
+                        // not combined.
+                        (_, c2) => SymExpr::DivCeil(lhs, c1).div_ceil(&c2),
                     },
                     (lhs, rhs) => lhs.div_ceil(&rhs),
                 }
